@@ -158,6 +158,8 @@ def c03(res: CheckResult) -> None:
              list(DF.fam_wraptable(res.tier, rng)), ic, rng=rng)
     def_unit(res, "member kinds (method, property, static, class method) inherited / overridden under invariants",
              list(DF.fam_kinds(res.tier, rng)), ic, rng=rng)
+    def_unit(res, "classes created through the metaclass with plain (decorated / merely inheriting) bases: the "
+                  "invariants of all ancestors are checked", list(DF.fam_mixed_dbc(res.tier, rng)), ic, verdicts=True, rng=rng)
 
 
 @check("C11")
@@ -252,6 +254,8 @@ def c04(res: CheckResult) -> None:
              list(DF.fam_inv_lists(res.tier, rng)), ic, verdicts=True, rng=rng)
     def_unit(res, "wrap table: which members of a class and of its sub-classes check the accumulated invariants",
              list(DF.fam_wraptable(res.tier, rng)), ic, rng=rng)
+    def_unit(res, "classes created through the metaclass with plain (decorated / merely inheriting) bases",
+             list(DF.fam_mixed_dbc(res.tier, rng)), ic, verdicts=True, rng=rng)
 
 
 @check("C17")
@@ -285,6 +289,8 @@ def c18(res: CheckResult) -> None:
     def_unit(res, "async def members in hierarchies and under invariants of every check_on combination",
              list(DF.fam_async_members(res.tier, rng)), ic, verdicts=True, rng=rng)
     def_unit(res, "special methods (__call__) in hierarchies", list(DF.fam_dunder(res.tier, rng)), ic, verdicts=True, rng=rng)
+    def_unit(res, "functions called once before a class statement adopts them as methods",
+             list(DF.fam_precalled(res.tier, rng)), ic, verdicts=True, rng=rng)
     def_unit(res, "registration hook: classes in modules with assorted names, with and without the metaclass",
              list(DF.fam_modules(res.tier, rng)), ic, rng=rng)
 
